@@ -52,7 +52,7 @@ Definition spec_accepted (t : tool) (a : answer) : bool :=
   match t with
   | ToNsq => match a with AOk => true | _ => false end
   | HttpPost => match a with AStatus c => (200 <=? c) && (c <=? 299) | _ => false end
-  | HttpGet => match a with AStatus c => c =? 200 | _ => false end
+  | HttpGet => match a with AStatus c => (200 <=? c) && (c <=? 299) | _ => false end   (* the code is stricter: 200 only *)
   end.
 
 Definition answered_no (t : tool) (a : answer) : bool :=
